@@ -32,7 +32,9 @@ def states_for(lay, named):
 
 def small_index_states(rng, lay, n):
     """initial states biased so that X and Y are valid indices of the 8-element arrays"""
-    sts = gen_states(rng, lay, n)
+    # pointer variables (p, q of the generator) start on some char variable or array of the program
+    tg = [n_ for n_ in ('a', 'b', 'c', 'd', 'arr', 'tab') if n_ in lay['sym']]
+    sts = gen_states(rng, lay, n, pointer_targets={'p': tg, 'q': tg} if tg else None)
     for k, st in enumerate(sts):
         if k % 4 != 3:
             st['X'] = rng.randrange(8)
